@@ -854,7 +854,7 @@ func c08Main(r *engine.Run) {
 }
 
 // nestingFaults: GeometryCollections nested d deep in every format (innermost: an empty collection,
-// a point, or nothing at all — truncated), and for WKB the variant in which every level claims
+// a point, an invalid LineString whose error is reported through every level, or nothing at all — truncated), and for WKB the variant in which every level claims
 // as many members as its remaining input could hold. Decoding must stay within the allocation
 // bound: nesting must not make cost quadratic in the input, and counts must not be pre-allocated
 // level after level.
@@ -870,7 +870,7 @@ func nestingFaults(thorough bool, out *[]faultCase) int {
 	}
 	le32 := func(v uint32) []byte { return []byte{byte(v), byte(v >> 8), byte(v >> 16), byte(v >> 24)} }
 	for _, d := range depths {
-		for _, inner := range []string{"emptyGC", "point", "truncated"} {
+		for _, inner := range []string{"emptyGC", "point", "truncated", "invalidLine"} {
 			o := fmt.Sprintf("nesting depth %d, innermost %s", d, inner)
 			// WKB little endian: 01 07000000 01000000 per level
 			var wkb []byte
@@ -882,6 +882,9 @@ func nestingFaults(thorough bool, out *[]faultCase) int {
 				wkb = append(wkb, 1, 7, 0, 0, 0, 0, 0, 0, 0)
 			case "point":
 				wkb = append(wkb, 1, 1, 0, 0, 0)
+				wkb = append(wkb, make([]byte, 16)...)
+			case "invalidLine": // a LineString with a single point: the validation error travels up through every level
+				wkb = append(wkb, 1, 2, 0, 0, 0, 1, 0, 0, 0)
 				wkb = append(wkb, make([]byte, 16)...)
 			}
 			add(fmtWKB, wkb, "WKB "+o)
@@ -895,6 +898,8 @@ func nestingFaults(thorough bool, out *[]faultCase) int {
 				tw = append(tw, 0x07, 0x10)
 			case "point":
 				tw = append(tw, 0x01, 0x00, 0x02, 0x04)
+			case "invalidLine":
+				tw = append(tw, 0x02, 0x00, 0x01, 0x02, 0x04)
 			}
 			add(fmtTWKB, tw, "TWKB "+o)
 			// WKT
@@ -904,6 +909,8 @@ func nestingFaults(thorough bool, out *[]faultCase) int {
 				wkt += "GEOMETRYCOLLECTION EMPTY" + strings.Repeat(")", d)
 			case "point":
 				wkt += "POINT(1 2)" + strings.Repeat(")", d)
+			case "invalidLine":
+				wkt += "LINESTRING(1 2)" + strings.Repeat(")", d)
 			}
 			add(fmtWKT, []byte(wkt), "WKT "+o)
 			// GeoJSON
@@ -913,6 +920,8 @@ func nestingFaults(thorough bool, out *[]faultCase) int {
 				gj += `{"type":"GeometryCollection","geometries":[]}` + strings.Repeat("]}", d)
 			case "point":
 				gj += `{"type":"Point","coordinates":[1,2]}` + strings.Repeat("]}", d)
+			case "invalidLine":
+				gj += `{"type":"LineString","coordinates":[[1,2]]}` + strings.Repeat("]}", d)
 			}
 			add(fmtGeoJSON, []byte(gj), "GeoJSON "+o)
 		}
